@@ -8,7 +8,7 @@
         always writes it (`omit_if_default` off: the null-admitting properties), and
       - a property present in `j` as an explicit `null` may be absent from `j'` — only when the class
         omits it when unset;
-    `j'` has no key that is not a declared wire name, and no key twice;
+    neither object has a key that is not a declared wire name of the class, or a key twice;
   * arrays, tuples and maps keep their shape, keys and order;
   * at a union the two are related at one of the alternatives, or equal;
   * everywhere else (scalars, enums, literals, Any / LSPObject positions) they are equal.
@@ -46,6 +46,9 @@ def nrel (E : Env) : Nat → PyTy → Json → Json → Bool
     | .cls c =>
       (match E.pkg.findCls c, j, j' with
        | some cl, .obj a, .obj b =>
+         -- both objects are objects of THIS class: no repeated key, every key a declared wire name (so that a property of `j`
+         -- cannot be "related" by looking at an alternative that does not declare it)
+         keysNodup a && a.all (fun kv => cl.fields.any (·.wireS == kv.1)) &&
          keysNodup b && b.all (fun kv => cl.fields.any (·.wireS == kv.1)) && relFields (nrel E n) a b cl.fields
        | _, _, _ => false)
     | .seq t => (match j, j' with | .arr xs, .arr ys => all2 (nrel E n t) xs ys | _, _ => false)
